@@ -15,11 +15,13 @@ import os
 import re
 import subprocess
 import tempfile
+import time
 from fractions import Fraction
 
 from .. import core
 from ..core import cbool
 from ..runner import Entry, differential
+from . import c12_translate
 
 PRE = ("From Coq Require Import Uint63.\nFrom EsVerif.Common Require Import Base.\n"
        "From EsVerif.C12 Require Import Model Spec Exec.\nOpen Scope uint63_scope.\n")
@@ -194,9 +196,56 @@ def max_depth_for(rad):
     return max(1, min(13, int(math.floor(math.log2(COST / rad)))))
 
 
-FAMILIES = ["uniform", "cap", "npole", "spole", "seam", "duplicates", "self", "edges", "tiny",
+FAMILIES = ["uniform", "cap", "npole", "spole", "seam", "duplicates", "self", "edges", "deepedge", "tiny",
             "antipodal", "radius0", "perpoint", "threshold"]
 LAYOUTS = ["plain", "swapped", "strided", "negstride", "list"]
+
+
+def _radec(v):
+    n = math.sqrt(sum(x * x for x in v))
+    v = [x / n for x in v]
+    return _norm(math.degrees(math.atan2(v[1], v[0])), math.degrees(math.asin(max(-1.0, min(1.0, v[2])))))
+
+
+def find_edge(r, depth):
+    """a point X (unit vector) on an edge between two triangles of the given depth, located by
+    bisection of the real lookup_id along a random arc, and the unit tangent t of that arc at X
+    (t crosses the edge).  Generic edges of deep triangles, not only the great circles of the
+    root triangles."""
+    import numpy as np
+    import esutil.htm as htm
+    h = htm.HTM(depth)
+
+    def lid(v):
+        a, d = _radec(v)
+        return int(h.lookup_id(np.array([a]), np.array([d]))[0])
+    size = math.radians(90.0 / 2 ** depth)
+    for _ in range(200):
+        A = list(_vec(*sph_uniform(r)))
+        w = _vec(*sph_uniform(r))
+        t = [A[1] * w[2] - A[2] * w[1], A[2] * w[0] - A[0] * w[2], A[0] * w[1] - A[1] * w[0]]
+        nt = math.sqrt(sum(x * x for x in t))
+        if nt < 1e-3:
+            continue
+        t = [x / nt for x in t]
+        B = [A[i] * math.cos(2 * size) + t[i] * math.sin(2 * size) for i in range(3)]
+        ia, ib = lid(A), lid(B)
+        if ia == ib:
+            continue
+        for _ in range(60):
+            M = [A[i] + B[i] for i in range(3)]
+            nm = math.sqrt(sum(x * x for x in M))
+            M = [x / nm for x in M]
+            if lid(M) == ia:
+                A = M
+            else:
+                B = M
+        # tangent at A towards B, re-orthogonalised
+        dt = sum(t[i] * A[i] for i in range(3))
+        t = [t[i] - dt * A[i] for i in range(3)]
+        nt = math.sqrt(sum(x * x for x in t))
+        return A, [x / nt for x in t]
+    raise RuntimeError("no triangle edge found at depth %d" % depth)
 
 
 def gen_problem(r, fam, big=False):
@@ -204,6 +253,7 @@ def gen_problem(r, fam, big=False):
     n1 = r.randrange(1, 14 if not big else 26)
     n2 = r.randrange(1, 50 if not big else 121)
     pts1, pts2, rad = [], [], None
+    fixdepth = None
     if fam == "uniform":
         pts1 = [sph_uniform(r) for _ in range(n1)]
         pts2 = [sph_uniform(r) for _ in range(n2)]
@@ -275,6 +325,26 @@ def gen_problem(r, fam, big=False):
                 base.append(_norm(p[0] + s, p[1] + off * r.uniform(-1, 1)))
         pts1, pts2 = base[:n1], base[n1:]
         rad = max(1e-6, off * logu(r, 0.3, 3))
+    elif fam == "deepedge":
+        # points on both sides of an edge between two triangles of the depth that is used, at
+        # offsets comparable with the radius (which goes down to 1e-6 degree)
+        fixdepth = r.randrange(1, 14)
+        rad = logu(r, 1e-6, min(1e-1, COST / 2 ** fixdepth / 4))
+        if r.random() < 0.25:
+            rad = r.choice([1e-6, 2e-6, 1e-5])
+        X, t = find_edge(r, fixdepth)
+        e = [X[1] * t[2] - X[2] * t[1], X[2] * t[0] - X[0] * t[2], X[0] * t[1] - X[1] * t[0]]   # along the edge
+        rr = math.radians(rad)
+        n1, n2 = min(n1, 8), min(n2, 20)
+
+        def pt(side):
+            u = side * r.uniform(0.0, 0.7) * rr
+            w = r.uniform(-0.5, 0.5) * rr
+            return _radec([X[i] + u * t[i] + w * e[i] for i in range(3)])
+        pts1 = [pt(r.choice([-1, 1])) for _ in range(n1)]
+        pts2 = [pt(r.choice([-1, 1])) for _ in range(n2)]
+        if r.random() < 0.5:
+            pts2[r.randrange(n2)] = pts1[r.randrange(n1)]
     elif fam == "tiny":
         c0 = sph_uniform(r)
         if r.random() < 0.3:
@@ -311,8 +381,11 @@ def gen_problem(r, fam, big=False):
     else:
         raise ValueError(fam)
     scale = max(rad) if isinstance(rad, list) else rad
-    return {"ra1": [p[0] for p in pts1], "dec1": [p[1] for p in pts1],
-            "ra2": [p[0] for p in pts2], "dec2": [p[1] for p in pts2], "radius": rad, "scale": scale}
+    out = {"ra1": [p[0] for p in pts1], "dec1": [p[1] for p in pts1],
+           "ra2": [p[0] for p in pts2], "dec2": [p[1] for p in pts2], "radius": rad, "scale": scale}
+    if fixdepth is not None:
+        out["fixdepth"] = fixdepth
+    return out
 
 
 def _vec(ra, dec):
@@ -324,6 +397,8 @@ def gen_config(r, p, fam):
     n2 = len(p["ra2"])
     dmax = max_depth_for(p["scale"])
     depth = r.choice([r.randrange(1, dmax + 1), dmax, min(dmax, 10)])
+    if p.get("fixdepth"):
+        depth = min(dmax, p.pop("fixdepth"))
     k = r.choice([-1, 0, 1, 2, r.randrange(3, 7), n2 + 5])
     return {"depth": depth, "maxmatch": k, "via": r.choice(["htm", "matcher"]),
             "layout": r.choice(LAYOUTS + ["plain"]), "family": fam}
@@ -553,7 +628,7 @@ class Match(Base):
     name = "match"
 
     def cases(self, ctx, round=0):
-        cs = self.problems(ctx, round, 20 if round == 0 else 6, 90 if round == 0 else 30)
+        cs = self.problems(ctx, round, 14 if round == 0 else 6, 80 if round == 0 else 30)
         if round == 0:
             # corners: empty sets, single points, scalars
             cs.append(dict(ra1=[], dec1=[], ra2=[1.0, 2.0], dec2=[3.0, 4.0], radius=1.0, scale=1.0, depth=7,
@@ -621,7 +696,7 @@ class Variants(Base):
 
     def cases(self, ctx, round=0):
         r = ctx.rng
-        cs = self.problems(ctx, round, 6 if round == 0 else 2, 25 if round == 0 else 8)
+        cs = self.problems(ctx, round, 5 if round == 0 else 2, 22 if round == 0 else 8)
         for c in cs:
             dmax = max_depth_for(c["scale"])
             if ctx.quick():
@@ -655,7 +730,7 @@ class FileRT(Base):
     name = "file"
 
     def cases(self, ctx, round=0):
-        cs = self.problems(ctx, round, 5 if round == 0 else 2, 20 if round == 0 else 6)
+        cs = self.problems(ctx, round, 4 if round == 0 else 2, 18 if round == 0 else 6)
         return self.prepare(ctx, cs)
 
     def impl(self, c):
@@ -698,7 +773,7 @@ class Cover(Base):
     name = "cover_contract"
 
     def cases(self, ctx, round=0):
-        cs = self.problems(ctx, round, 8 if round == 0 else 2, 30 if round == 0 else 8)
+        cs = self.problems(ctx, round, 6 if round == 0 else 2, 26 if round == 0 else 8)
         return self.prepare(ctx, cs)
 
     def impl(self, c):
@@ -764,21 +839,182 @@ class Reject(Entry):
 
 ENTRIES = [Match(), Variants(), FileRT(), Cover(), Reject()]
 
+
+# ----------------------------------------------------------------------------
+# kernel-checked certificates about the true separation (style R): per sampled pair, Interval
+# proves bounds on the haversine, C12_separation_certificate_sound turns them into bounds on
+# [true_sep] (acos of the dot product).  Two statements per pair:
+#   audit:    the oracle's value D is within 1e-12 degree of the true separation   (about the oracle)
+#   reported: the separation the code reports is within 1e-9 degree of the true one (about esutil)
+# ----------------------------------------------------------------------------
+
+CERT_PRE = ("From Coq Require Import Reals Lra.\nFrom Interval Require Import Tactic.\n"
+            "From EsVerif.C12 Require Import SepModel SepCert.\nOpen Scope R_scope.\n"
+            "Ltac side := first [ left; lra | right; split; [ lra | unfold havs, hav, rad; interval with (i_prec 160) ] ].\n"
+            "Ltac cert := apply sep_between_intro; side.\n")
+AUDIT_TOL = Fraction(1, 10 ** 12)
+REPORT_TOL = Fraction(1, 10 ** 9)
+
+
+def cfr(fr):
+    fr = Fraction(fr)
+    n, d = fr.numerator, fr.denominator
+    body = "%d" % abs(n) if d == 1 else "%d / %d" % (abs(n), d)
+    return "(%s%s)" % ("- " if n < 0 else "", body)
+
+
+def sep_stmt(c, i, j, lo, hi):
+    return "sep_between %s %s %s %s %s %s" % (core.cR(c["ra1"][i]), core.cR(c["dec1"][i]), core.cR(c["ra2"][j]),
+                                             core.cR(c["dec2"][j]), cfr(lo), cfr(hi))
+
+
+def cert_pairs(r, c, D, limit):
+    n1, n2 = len(c["ra1"]), len(c["ra2"])
+    allp = [(i, j) for i in range(n1) for j in range(n2)]
+    if len(allp) <= limit:
+        return allp
+    near = sorted(allp, key=lambda p: abs(float(D[p[0]][p[1]]) - rad_of(c, p[0])))[:2]
+    nz = [p for p in allp if float(D[p[0]][p[1]]) > 0]
+    ext = ([min(nz, key=lambda p: float(D[p[0]][p[1]])), max(nz, key=lambda p: float(D[p[0]][p[1]]))] if nz else [])
+    rnd = [allp[r.randrange(len(allp))] for _ in range(max(0, limit - 4))]
+    out = []
+    for p_ in near + ext + rnd:
+        if p_ not in out:
+            out.append(p_)
+    return out[:limit]
+
+
+def certify(ctx, replay=None):
+    t0 = time.time()
+    r = ctx.rng
+    if replay is not None:
+        problems = [dict(replay["case"])]
+    else:
+        problems = [c for c in corpus_all("sepcert")]
+        for fam in FAMILIES:
+            for _ in range(ctx.n(1, 6)):
+                p = gen_problem(r, fam)
+                p.update(gen_config(r, p, fam))
+                problems.append(p)
+    oracle_fill(problems, ctx.work)
+    items, lemmas = [], []
+    for c in problems:
+        D = oracle(c, ctx.work)
+        try:
+            dcode = code_distances(c)
+        except Exception as e:  # noqa
+            ctx.violation("sepcert: a 180-degree match raised %s" % type(e).__name__,
+                          {"kind": "failing-input", "entry": "sepcert", "case": c, "error": str(e)}, found_input=True)
+            continue
+        pairs = c.get("pairs") or cert_pairs(r, c, D, 12 if c.get("family", "").startswith("corpus") or replay is not None else 5)
+        for (i, j) in pairs:
+            d = dcode[i][j]
+            Dq = Fraction(D[i][j])
+            items.append((c, i, j, d, Dq))
+            lemmas.append((sep_stmt(c, i, j, Dq - AUDIT_TOL, Dq + AUDIT_TOL), "cert."))
+            if d is None or d != d or abs(d) == float("inf"):
+                lemmas.append(("False", "fail."))
+            else:
+                lemmas.append((sep_stmt(c, i, j, Fraction(d) - REPORT_TOL, Fraction(d) + REPORT_TOL), "cert."))
+    res = core.coq_lemmas(os.path.join(ctx.work, "sepcert"), CERT_PRE, lemmas, shard=16, tag="sep")
+    bad = []
+    for k, (c, i, j, d, Dq) in enumerate(items):
+        ok_a, ok_r = res[2 * k][0], res[2 * k + 1][0]
+        fam = c.get("family", "?")
+        one = {"ra1": [c["ra1"][i]], "dec1": [c["dec1"][i]], "ra2": [c["ra2"][j]], "dec2": [c["dec2"][j]],
+               "radius": 180.0, "scale": 180.0, "pairs": [[0, 0]], "family": fam}
+        ctx.case(["sepcert", one["ra1"], one["dec1"], one["ra2"], one["dec2"]], Dq != 0, "cert:" + fam,
+                 sample={"entry": "sepcert", "input": one, "impl_output": {"d12": d, "oracle": str(float(Dq))}})
+        ctx.count("cert:audit:%s" % ("ok" if ok_a else "FAILED"))
+        ctx.count("cert:reported:%s" % ("ok" if ok_r else "FAILED"))
+        if not ok_a:
+            ctx.obligation("oracle audit (mpmath value within 1e-12 deg of true_sep) pair %d" % k, False, res[2 * k][1])
+            ctx.violation("sepcert: the separation oracle could not be certified by Interval on a pair (defect of the "
+                          "harness' assumptions, not necessarily of esutil)",
+                          {"kind": "oracle-audit", "entry": "sepcert", "case": one, "oracle": str(Dq), "log": res[2 * k][1][-800:],
+                           "no_longer_checks": "trust in harness/props/c12_oracle.py"}, found_input=False)
+        if not ok_r:
+            bad.append((k, one, d, Dq))
+    ctx.obligation("sepcert: %d pairs, oracle audited to 1e-12 deg and reported separation certified to 1e-9 deg by Interval" % len(items),
+                   all(res[2 * k][0] and res[2 * k + 1][0] for k in range(len(items))))
+    # a reported separation that could not be certified: certify the opposite
+    if bad:
+        ref = []
+        for k, one, d, Dq in bad[:20]:
+            if d is None or d != d or abs(d) == float("inf"):
+                ref += [("False", "fail."), ("False", "fail.")]
+                continue
+            eps = REPORT_TOL * Fraction(1001, 1000)
+            ref.append((sep_stmt(one, 0, 0, Fraction(d) + eps, 181), "cert."))     # true separation is larger
+            ref.append((sep_stmt(one, 0, 0, -1, Fraction(d) - eps), "cert."))      # true separation is smaller
+        rr = core.coq_lemmas(os.path.join(ctx.work, "sepref"), CERT_PRE, ref, shard=8, tag="ref")
+        for n_, (k, one, d, Dq) in enumerate(bad[:20]):
+            certain = rr[2 * n_][0] or rr[2 * n_ + 1][0]
+            ctx.violation("sepcert: reported separation %r differs from the true one (%.17g) by more than 1e-9 degree%s" % (
+                d, float(Dq), " [kernel-checked]" if certain else " [not certified either way]"),
+                {"kind": "failing-input", "entry": "sepcert", "case": one, "impl_output": {"d12": d}, "true": str(Dq),
+                 "certified": bool(certain), "class": None}, found_input=bool(certain))
+            break
+    ctx.count("wall_s:sepcert", round(time.time() - t0, 1))
+
+
+def extra_theorems(ctx, module, allow, nmin, what):
+    """build C12/<module>.vo and check Print Assumptions of each of its theorems; one obligation per theorem"""
+    thms = core.theorems_in(os.path.join(core.COQDIR, "theories", "C12", module + ".v"))
+    ok, log = core.coq_make(["theories/C12/%s.vo" % module])
+    ctx.checker_cmds.append("make -C coq theories/C12/%s.vo && coqc Print Assumptions <each theorem>" % module)
+    if not ok:
+        for t in thms:
+            ctx.obligation("C12.%s" % t, False, "build failed")
+        ctx.violation("proof obligations of C12/%s.v do not build: %s" % (module, what),
+                      {"kind": "proof-build", "theorems": thms, "log_tail": log[-3000:], "no_longer_checks": what},
+                      found_input=False)
+        return False
+    res, bad, raw = core.assumptions(ctx.work, "C12." + module, thms, allow)
+    badthm = set(t for t, _ in bad)
+    axs = set()
+    for t in thms:
+        ctx.obligation("C12.%s" % t, t not in badthm)
+        axs.update((res or {}).get(t, []))
+    ctx.assumptions_txt.append("Print Assumptions over %d theorems of C12/%s.v: %s" % (
+        len(thms), module, ("axioms used: " + ", ".join(sorted(axs))) if axs else "all closed under the global context"))
+    if bad or len(thms) < nmin:
+        ctx.violation("theorem of C12/%s.v missing or depending on an axiom outside the allow-list: %s" % (module, bad[:3]),
+                      {"kind": "assumptions", "bad": bad, "theorems": thms}, found_input=False)
+        return False
+    return True
+
+
+def corpus_all(entry_name):
+    from ..runner import corpus_cases
+    return corpus_cases("C12", entry_name)
+
 TRUSTED = [
-    "Coq 8.16.1 kernel (coqc, vm_compute; no native_compute); all C12 theorems are closed under the global context (no axioms)",
+    "Coq 8.16.1 kernel (coqc, vm_compute; no native_compute).  The 18 theorems of C12/Properties.v and the 4 of "
+    "C12/TieProperties.v are closed under the global context (no axioms); the 4 of C12/SepProperties.v use only the standard "
+    "library's axioms of the reals (ClassicalDedekindReals.sig_forall_dec, sig_not_dec, functional_extensionality_dep, "
+    "Classical_Prop.classic); the per-case interval lemmas additionally the primitive-float/int specifications used by Interval",
     "hand-written model C12/Model.v of Matcher::init_hmap / Matcher::match (htmc.cc) and HTM.match / Matcher.match / read_pairs "
-    "(htm.py); tied to the code by the correspondence run on every check (differential testing, bounded by the generators)",
+    "(htm.py); tied to the code (a) by the correspondence run on every check (differential testing, bounded by the generators) and "
+    "(b) by harness/props/c12_translate.py, which regenerates C12/Gen.v (distance filter, sort comparator, emit guard, maxmatch "
+    "truncation, radius selection, all 8 for-headers, fprintf format, the ValueError size checks, read_pairs dtype/delimiter) and "
+    "C12/GenR.v (NPY_PI/D2R/R2D, the whole body of gcirc, MATCH_COVER_PAD_DEGREES and match_cover_cosine) from the source of the "
+    "tree under check, fail-closed; TieProperties.v / SepProperties.v are re-proved against them.  The translator itself "
+    "(regex/ast pattern matching, ~500 lines python) is trusted",
     "assumed, not proved (hypothesis H_cover of the theorems): the JHU HTM library -- lookupID and SpatialDomain::intersect "
     "(circle cover) -- every point within the radius lies in a listed triangle, ids duplicate-free; monitored on every case by "
     "the cover_contract entry and, end to end, by the verified checker on the real output against brute-force true separations",
     "assumed (sort_contract): std::sort returns a permutation sorted by d12 (tie order unspecified; model = code is compared up "
     "to the order of equal distances); distances finite (no NaN coordinates)",
-    "measured, not modelled: the code's distance function gcirc (libm sin/cos/atan2): its values are read off the real code "
-    "(180-degree match) and compared on every returned row with the true separation (tolerance 1e-9 degree, the band the "
-    "property leaves unconstrained; the atan2 formula is accurate to ~1e-13 degree); printf(\"%.16g\")/strtod (file round trip) "
-    "are represented by python's correctly rounded conversions",
+    "gcirc: its FORMULA (translated from the source) is proved equal to the true great-circle separation over R "
+    "(C12_gcirc_is_true_separation; atan2 for y >= 0 is modelled by SepModel.atan2u); binary64 rounding and libm "
+    "(sin/cos/sqrt/atan2 in long double/double) are not modelled: the values the real code computes are read off a 180-degree "
+    "match, compared on every returned row with the true separation (tolerance 1e-9 degree, the band the property leaves "
+    "unconstrained) and, on a sample of pairs per run, certified to be within 1e-9 degree of true_sep by kernel-checked Interval "
+    "lemmas (sepcert); printf(\"%.16g\")/strtod (file round trip) are represented by python's correctly rounded conversions",
     "true separations: harness/props/c12_oracle.py (mpmath, 60 significant digits, float64 inputs taken exactly), run by the "
-    "tooling interpreter; exchanged with Coq as exact integers in units of 1e-9*2^-E degree",
+    "tooling interpreter; exchanged with Coq as exact integers in units of 1e-9*2^-E degree; audited on a sample of pairs per run "
+    "(value within 1e-12 degree of true_sep, by Interval + C12_separation_certificate_sound)",
     "python harness (harness/props/C12.py), literal printers, coqc evaluating Exec.v verdict terms; numpy's astype('f8') "
     "conversion of byte-swapped / strided inputs is exercised, not modelled",
 ]
@@ -786,15 +1022,49 @@ TRUSTED = [
 
 def run(ctx, replay=None):
     ctx.rule = ("corpus + adversarial families (uniform, caps 1e-4..30 deg, both poles, seam, duplicates, self-matching, triangle "
-                "edges with tiny offsets, tiny separations, near-antipodal, radius 0, per-point radii, separations just beyond "
+                "edges with tiny offsets, edges of triangles of the depth in use located by bisection of lookup_id, tiny separations, near-antipodal, radius 0, per-point radii, separations just beyond "
                 "the 1e-9 deg band around the radius) x depths 1..13 x maxmatch in {-1,0,1,2,k,>n2} x {HTM.match, Matcher} x "
                 "{plain, byte-swapped, strided, negative-stride, list} inputs; every case is run on the real esutil and inside "
                 "Coq (model = implementation up to ties?  verified checker on the implementation's rows against 60-digit true "
                 "separations).  non-trivial: at least one pair inside and one outside the radius beyond the tolerance.  "
-                "distinct by canonical JSON.")
+                "distinct by canonical JSON.  In addition a family-balanced sample of pairs is certified by Interval lemmas "
+                "against true_sep = acos(u1.u2): oracle value within 1e-12 deg, reported separation within 1e-9 deg (cert:* keys).")
     ctx.trusted = TRUSTED
+    # 1. decisions, loop headers, size checks, file format (Gen.v) and the distance formula, the
+    #    constants and the searched cap (GenR.v) are regenerated from the source of the tree under check
+    try:
+        summary, changed = c12_translate.regenerate(ctx.impl, core.COQDIR)
+        ctx.obligation("C12/Gen.v + GenR.v regenerated from esutil/htm/htmc.cc, htmc.h, htm.py (filter %r, comparator %r, "
+                       "format %r, cover pad %s)%s" % (summary["keep"], summary["before"], summary["format"], summary["pad"],
+                                                       " [changed]" if changed else ""), True)
+    except c12_translate.TranslateError as e:
+        ctx.obligation("C12/Gen.v + GenR.v regenerated from the source", False, str(e))
+        ctx.violation("translation of the matcher's decisions / gcirc failed: %s" % e,
+                      {"kind": "translation", "error": str(e),
+                       "no_longer_checks": "tie of C12/Gen.v, GenR.v (hence C12_source_*, C12_gcirc_*) to esutil/htm"},
+                      found_input=False)
+    # 2. theorems.  Properties.v (general theorems, independent of the regenerated files) and
+    #    TieProperties.v (model = regenerated source text) closed under the global context;
+    #    SepProperties.v (real numbers) may use the axioms of the standard library of reals only
     core.proof_step(ctx, "C12", core.ALLOW_DISCRETE)
+    extra_theorems(ctx, "TieProperties", core.ALLOW_DISCRETE, 4,
+                   "tie of C12/Model.v to the regenerated C12/Gen.v (decisions, loops, size checks, file format of the source)")
+    extra_theorems(ctx, "SepProperties", core.ALLOW_REALS, 4,
+                   "C12/SepProperties.v over the regenerated C12/GenR.v (gcirc is the true separation; searched cap contains the search cap)")
+    # 3. the real code against the model and the verified checker
+    if replay is not None and replay.get("entry") == "sepcert":
+        core.coq_make(["theories/C12/SepCert.vo"])
+        certify(ctx, replay)
+        return
     differential(ctx, PRE, ENTRIES, replay)
+    # 4. kernel-checked separations on a sample (needs SepProofs.vo, which needs GenR.v to build)
+    if replay is None:
+        ok, log = core.coq_make(["theories/C12/SepCert.vo"])
+        if ok:
+            certify(ctx)
+        else:
+            ctx.obligation("C12/SepCert.vo builds", False, log[-500:])
+            ctx.violation("C12/SepCert.v does not build", {"kind": "proof-build", "log_tail": log[-3000:]}, found_input=False)
     for n_ in _ORACLE_NOTE:
         if n_ not in ctx.notes:
             ctx.notes.append(n_)
